@@ -212,6 +212,10 @@ func Check(c Case) (hx.Vs, map[string]bool, bool) {
 			return o.vs, o.classes, false
 		}
 		if err != nil {
+			if ps := s.Panics(); len(ps) > 0 {
+				o.vs.Add("handler-panic:"+hx.PanicFunc(ps[0]), "step %d (%.160s) made the connection handler panic: %.1500s", si, r.SQL, ps[0])
+				return o.vs, o.classes, false
+			}
 			o.vs.Add("session-broken:"+st.Op, "step %d (%.120s): %v", si, r.SQL, err)
 			return o.vs, o.classes, false
 		}
